@@ -293,6 +293,38 @@ fn apply(st: &mut State, line: &str, out: &mut String) {
                 do_reserve(w, comps_mask(&cs), desc, amount);
             }
         }
+        "qry" => {
+            if let Some(w) = st.worlds[u(1)].as_mut() {
+                let (mut rows, flag) = run_query(w, u(2));
+                rows.sort();
+                let mut r = String::from("rows");
+                for x in &rows {
+                    r.push(' ');
+                    r.push_str(if x.is_empty() { "_" } else { x });
+                }
+                if let Some(f) = flag {
+                    r.push_str(" !");
+                    r.push_str(&f);
+                }
+                ret = r;
+            }
+        }
+        "eqry" => {
+            let (i, g) = parse_target(t[2], &st.issued);
+            opline = format!("op eqry {} {}:{} {}", t[1], i, g, t[3..].join(" "));
+            if let Some(w) = st.worlds[u(1)].as_mut() {
+                ret = match run_entry_query(w, mk_id(i, g), u(3)) {
+                    None => "noentry".into(),
+                    Some(None) => "nomatch".into(),
+                    Some(Some(r)) => format!("row {}", if r.is_empty() { "_".to_string() } else { r }),
+                };
+            }
+        }
+        "qwr" => {
+            if let Some(w) = st.worlds[u(1)].as_mut() {
+                ret = format!("n {}", run_query_write(w, u(2), v64(3)));
+            }
+        }
         "shr" => {
             if let Some(w) = st.worlds[u(1)].as_mut() {
                 w.shrink_to_fit();
